@@ -1,0 +1,47 @@
+//go:build verif
+
+package workflow
+
+// Verification-only observer for the role-tree harness (/verif, property C11): read a role's
+// cached state / status WITHOUT waiting for its lock, so that a harness can observe the tree
+// while an update is parked inside SafeState.merge / SafeStatus.merge (holding the lock).
+
+import (
+	"github.com/AliceO2Group/Control/core/task"
+	"github.com/AliceO2Group/Control/core/task/sm"
+)
+
+func verifRTBase(r Role) *roleBase {
+	switch x := r.(type) {
+	case *aggregatorRole:
+		return &x.roleBase
+	case *includeRole:
+		return &x.roleBase
+	case *taskRole:
+		return &x.roleBase
+	case *callRole:
+		return &x.roleBase
+	}
+	return nil
+}
+
+// VerifRTPeekState returns the role's cached state, or ok=false when the state's lock is held
+// (or awaited) by a writer.
+func VerifRTPeekState(r Role) (s sm.State, ok bool) {
+	b := verifRTBase(r)
+	if b == nil || !b.state.mu.TryRLock() {
+		return sm.UNKNOWN, false
+	}
+	defer b.state.mu.RUnlock()
+	return b.state.state, true
+}
+
+// VerifRTPeekStatus is the same for the status.
+func VerifRTPeekStatus(r Role) (s task.Status, ok bool) {
+	b := verifRTBase(r)
+	if b == nil || !b.status.mu.TryRLock() {
+		return task.UNDEFINED, false
+	}
+	defer b.status.mu.RUnlock()
+	return b.status.status, true
+}
